@@ -334,6 +334,7 @@ pub fn other_samples() -> Vec<Sample> {
         rw::ExecuteMsg::DecreaseBalance { address: USERS[0].into(), amount: Uint128::new(1) },
         rw::ExecuteMsg::ClaimRewards { recipient: None },
         rw::ExecuteMsg::UpdateSwapDenom { swap_denom: "evil".into(), is_add: true },
+        rw::ExecuteMsg::UpdateSwapDenom { swap_denom: "usei".into(), is_add: false },
     ] {
         let (v, who) = reward_variant(&m);
         push(REWARD, v, who, bin(&m), false);
@@ -347,6 +348,7 @@ pub fn other_samples() -> Vec<Sample> {
         dm::ExecuteMsg::DispatchRewards {},
         dm::ExecuteMsg::UpdateSwapContract { swap_contract: STRANGER.into() },
         dm::ExecuteMsg::UpdateSwapDenom { swap_denom: "evil".into(), is_add: true },
+        dm::ExecuteMsg::UpdateSwapDenom { swap_denom: "usei".into(), is_add: false },
         dm::ExecuteMsg::UpdateOracleContract { oracle_contract: STRANGER.into() },
     ] {
         let (v, who) = dispatcher_variant(&m);
